@@ -58,7 +58,15 @@ package recovery
 //@   param onHeader is HeaderCallback
 //@   property C10 also C11
 //@   safety C10
-//@   modifies *, indexWrites, hdrVerified[hdr], hdrSubstituted[hdr], hdrSealed[hdr], ghosts(C14), ghosts(C07)
+//@   modifies *, indexWrites, hdrVerified[hdr], hdrSubstituted[hdr], hdrSealed[hdr], ghosts(C14), ghosts(C07), keyMoves
+//@   property C04
+//@   at call UpdateHeaderMetadata#1 assert [edits-before-move] keyMoves == old(keyMoves)
+//@   at call UpdateHeaderMetadata#2 assert [edits-before-move-meta] keyMoves == old(keyMoves)
+//@   at call MoveHeader#1 assert [move-carries-this-position] arg_lastknownrecord == record && arg_lastknownblock == block && arg_newName == hdr.Name
+//@   at call DeleteHeader#1 assert [delete-carries-this-position] arg_lastknownrecord == record && arg_lastknownblock == block && arg_name == hdr.Name
+//@   at call TarHeaderToDBHeader#2 assert [create-position] arg_record == record && arg_lastKnownRecord == record && arg_block == block && arg_lastKnownBlock == block
+//@   at call TarHeaderToDBHeader#3 assert [content-update-position] arg_record == record && arg_lastKnownRecord == record && arg_block == block && arg_lastKnownBlock == block
+//@   at call TarHeaderToDBHeader#4 assert [metadata-update-keeps-content-position] arg_record == oldHdr.Record && arg_block == oldHdr.Block && arg_lastKnownRecord == record && arg_lastKnownBlock == block
 //@   property C17
 //@   at call UpsertHeader#1 assert [foreign-record-is-create] !old(has(hdr.PAXRecords, "STFS.Action")) || old(hdr.PAXRecords["STFS.Action"]) == "CREATE"
 //@   at call UpsertHeader#1 assert [foreign-record-version] !old(has(hdr.PAXRecords, "STFS.Version")) || old(hdr.PAXRecords["STFS.Version"]) == "1"
